@@ -24,6 +24,9 @@ PLAN = {
     "C16-1": [("C16", [])], "C16-2": [("C16", [])],
     "C17-1": [("C17", [])], "C17-2": [("C17", [])],
     "C19-1": [("C19", [])], "C19-2": [("C19", [])],
+    # third round (one change per property)
+    "C05-3": [("C05", [])], "C10-3": [("C10", [])], "C12-3": [("C12", [])], "C13-3": [("C13", [])],
+    "C14-3": [("C14", [])], "C16-3": [("C16", [])],
 }
 
 
